@@ -449,7 +449,7 @@ def plan_of(src: str) -> Tuple[List[str], Optional[str]]:
     levels = []
     for m in re.finditer(r"@([EN])", src or ""):
         levels.append("Error" if m.group(1) == "E" else "Notice")
-    fatal = "lex" if "@L" in (src or "") else "parse" if "@F" in (src or "") else None
+    fatal = "lex" if "@L" in (src or "") else "parse" if "@F" in (src or "") else "giveup" if "@M" in (src or "") else None
     return levels, fatal
 
 
@@ -773,6 +773,13 @@ class World:
             if fatal == "lex":
                 ev.trace.append(("fatal", file, "lex"))
                 raise Raised(ev.construct("CParsingError", [f"Error: unterminated constant in {ev.getattr(file, 'path')}"]))
+            if fatal == "giveup":
+                # the tokenizer's own way of giving up (a constant of more than 100 characters, too many splices): the sibling
+                # error class of the repository, whichever shape it has in this tree
+                ev.trace.append(("fatal", file, "lex"))
+                for cname in ("MaybeInfiniteLoop", "UnexpectedEOF"):
+                    if cname in self.prog.classes:
+                        raise Raised(ev.construct(cname, []))
             return [Obj("Token", type="STUB", _opaque=True)]
 
         lx.__dict__["_native_iter"] = tokens
